@@ -22,7 +22,7 @@ Section Preserve.
 
   Lemma m_get_pres av hs excl eids m i : forall e, P e -> P (fst (m_get av hs excl eids m i e)).
   Proof.
-    induction m as [sid|sid touch d| |l|sid|m IH|sid mode selmod selrem d others|k mode d|sid]; intros e H; cbn [m_get].
+    induction m as [sid|sid touch d| |l|sid|m IH|sid mode selmod selrem d others|k mode d|sid|bop ba bb]; intros e H; cbn [m_get].
     - pose proof (P_jact e sid (JRead i) H) as X. destruct (env_jact e sid _) as [e1 t]. exact X.
     - pose proof (P_jact e sid (JAccess i touch d) H) as X. destruct (env_jact e sid _) as [e1 t]. exact X.
     - assumption.
@@ -39,6 +39,7 @@ Section Preserve.
     - destruct (NM.find i (cs_get e k)) as [a|]; cbn [fst]; [|apply P_fail; assumption].
       destruct (N.eqb mode 1); [apply P_cs; assumption|]. destruct (N.eqb mode 2); [apply P_cs|]; assumption.
     - pose proof (P_jact e sid (JRemove i) H) as X. destruct (env_jact e sid _) as [e1 t]. exact X.
+    - assumption.
   Qed.
 
   Lemma visit_members_pres av hs excl eids ms i : forall e, P e -> P (fst (visit_members av hs excl eids ms i e)).
